@@ -184,6 +184,43 @@ class CFG:
                 work.append((s, path + [s]))
         return None
 
+    def path_between_avoiding(self, a, b, targets, blocked_edges=()):
+        """is there a path from just after position a to position b that passes no target position?
+        blocked_edges: (from_block, to_block) pairs known to be infeasible"""
+        tset = {}
+        for t in targets:
+            tset.setdefault(t[0], []).append(t[1])
+        if a[0] == b[0] and b[1] > a[1]:
+            if not any(a[1] < j < b[1] for j in tset.get(a[0], [])):
+                return [a[0]]
+        if any(j > a[1] for j in tset.get(a[0], [])):
+            return None
+        be = set(blocked_edges)
+        work = [(s, [a[0], s]) for s in self.succ[a[0]] if (a[0], s) not in be]
+        seen = set()
+        while work:
+            blk, path = work.pop()
+            if blk in seen:
+                continue
+            seen.add(blk)
+            if blk == b[0]:
+                if not any(j < b[1] for j in tset.get(blk, [])):
+                    return path
+                continue
+            if blk in tset:
+                continue
+            for s in self.succ[blk]:
+                if (blk, s) not in be:
+                    work.append((s, path + [s]))
+        return None
+
+    def false_edge_of(self, ifstmt_id):
+        """(block, false successor) of the block terminated by the given IfStmt"""
+        for bid, b in self.blocks.items():
+            if b.get("term") == ifstmt_id and len(b.get("succ", [])) == 2 and b["succ"][1] is not None:
+                return (bid, b["succ"][1])
+        return None
+
     def path_from_entry_avoiding(self, goal, targets):
         """path entry -> position goal not passing any target position before it"""
         tset = {}
